@@ -26,6 +26,29 @@ import (
 type GV struct {
 	Invalid bool // the zero value of a point type: not a group element
 	Terms   map[string]*poly.Poly
+	// Ones: (only on an Invalid value) the coordinates of a zero-valued object that have since been set with
+	// Element.One(), by field index: the object is being built coordinate by coordinate
+	Ones map[int]bool
+}
+
+// CoordPtr points at one coordinate of a point-like object the group domain owns.
+type CoordPtr struct {
+	P     Ptr
+	Field int
+}
+
+// identityOnes: per coordinate system, the coordinates that are 1 in the neutral element (all others are 0).
+var identityOnes = map[string][]string{
+	"projP2":       {"Y", "Z"},
+	"projCached":   {"YplusX", "YminusX", "Z"},
+	"affineCached": {"YplusX", "YminusX"},
+	"Point":        {"y", "z"},
+}
+
+// FieldAddrAtom: the address of a coordinate of a point-like object. The only thing the domain lets code do
+// with it is store the constants 0 and 1 (Element.Zero / Element.One) into a zero-valued object.
+func (d *GroupDom) FieldAddrAtom(in *Interp, site ssa.Instruction, p Ptr, field int) (Val, bool) {
+	return CoordPtr{P: p, Field: field}, true
 }
 
 // DigitV is a small signed integer given as a polynomial in digit symbols.
@@ -240,10 +263,10 @@ func (d *GroupDom) GlobalValue(in *Interp, g *ssa.Global) (Val, bool) {
 		t := g.Type().(*types.Pointer).Elem().(*types.Pointer).Elem()
 		return Ptr{Obj: in.NewObject("*"+g.Name(), t, v)}, true
 	}
-	switch g.Name() {
-	case "identity":
+	switch g {
+	case in.P.PointConstant("identity"):
 		return mk(d.Zero())
-	case "generator":
+	case in.P.PointConstant("generator"):
 		return mk(d.Sym("B"))
 	}
 	return nil, false
@@ -255,6 +278,24 @@ func (d *GroupDom) gv(in *Interp, site ssa.Instruction, p Val, who string) *GV {
 	if !ok {
 		in.Undecided(site, "%s: operand is %T, not a point", who, v)
 	}
+	if g.Invalid && len(g.Ones) > 0 {
+		// built as "zero value + One() on some coordinates": the neutral element iff those are exactly its ones
+		if pp, ok := p.(Ptr); ok && len(pp.Path) == 0 {
+			if n, ok := pp.Obj.Type.(*types.Named); ok {
+				want := identityOnes[n.Obj().Name()]
+				match := len(want) > 0 && len(want) == len(g.Ones)
+				for _, w := range want {
+					if i := load.FieldIndex(pp.Obj.Type, w); i < 0 || !g.Ones[i] {
+						match = false
+					}
+				}
+				if match {
+					return d.Zero()
+				}
+			}
+		}
+		in.Undecided(site, "%s consumes a point object whose coordinates were set one by one to something that is not the neutral element", who)
+	}
 	if g.Invalid {
 		in.Undecided(site, "%s consumes a point object that was never written (all-zero coordinates)", who)
 	}
@@ -262,6 +303,29 @@ func (d *GroupDom) gv(in *Interp, site ssa.Instruction, p Val, who string) *GV {
 }
 
 func (d *GroupDom) Call(in *Interp, site ssa.Instruction, fn *ssa.Function, args []Val) ([]Val, bool) {
+	if fn.Pkg == in.P.Field && len(args) == 1 {
+		if cp, ok := args[0].(CoordPtr); ok {
+			name := load.ShortName(fn)
+			if name == "field.(*Element).One" || name == "field.(*Element).Zero" {
+				g, isG := in.Load(site, cp.P).(*GV)
+				if !isG || !g.Invalid {
+					in.Undecided(site, "%s on a coordinate of a point that already holds a group element", name)
+				}
+				n := &GV{Invalid: true, Ones: map[int]bool{}}
+				for k := range g.Ones {
+					n.Ones[k] = true
+				}
+				if name == "field.(*Element).One" {
+					n.Ones[cp.Field] = true
+				} else {
+					delete(n.Ones, cp.Field)
+				}
+				in.Store(site, cp.P, n)
+				return []Val{cp}, true
+			}
+			in.Undecided(site, "%s on a coordinate of a point (the group domain does not look inside points)", name)
+		}
+	}
 	if fn.Pkg != in.P.Root {
 		return nil, false
 	}
